@@ -50,3 +50,7 @@ check("C08", "other",
       "column references must resolve unambiguously (sqlmodel), and a concrete instantiation from the path's z3 model must be "
       "accepted by a real SQLite.", "bounded symbolic execution (symx+z3 path enumeration) of the real compiler + per-path SQLite acceptance",
       "3/C08")
+check("C17", "translation_validation",
+      "Path assertions (fixed point of conform, marker coherence, is_compound) on every path of every API-built SQL program, and "
+      "SMT-decided content preservation of conform() and of compilation for raw trees assembled without the engine's help, for "
+      "all table contents within the slot bound.", BSV + " and sqlmodel", "3/C17")
